@@ -39,6 +39,15 @@ var c08Ops = []string{
 	"Eq", "Ne", "Gt", "Ge", "Lt", "Le",
 }
 
+// opShape is the operand shape of the single-step harnesses: [2,2], or the rank-3 shape [2,1,2]
+// (a size-1 dimension in the middle) when the work item says so.
+func opShape() []int {
+	if vrt.Param("shape3") == 1 {
+		return []int{2, 1, 2}
+	}
+	return []int{2, 2}
+}
+
 func c08Arity(op string) int {
 	switch op {
 	case "Add", "Sub", "Mul", "Div", "ElMax", "ElMin", "Dot", "MatMul", "Patch", "PatchFull", "Concat2", "Eq", "Ne", "Gt", "Ge", "Lt", "Le":
@@ -123,7 +132,7 @@ func mustSliceKeep(u T) T {
 func H_C08_step() {
 	op := vrt.SParam("op")
 	n := c08Arity(op)
-	dims := []int{2, 2}
+	dims := opShape()
 	xs := make([]T, n)
 	clean := make([]T, n)
 	anyTracked, anySpent := false, false
